@@ -24,7 +24,7 @@ def _cvc5(smt2, timeout_s):
     if not os.path.exists(CVC5):
         return "unknown"
     with tempfile.NamedTemporaryFile("w", suffix=".smt2", delete=False, dir="/var/tmp") as f:
-        f.write("(set-logic ALL)\n" + smt2.replace("bv2int", "bv2nat") + "\n")
+        f.write("(set-logic ALL)\n" + smt2.replace("ubv_to_int", "bv2nat").replace("bv2int", "bv2nat") + "\n")
         path = f.name
     try:
         p = subprocess.run([CVC5, "--strings-exp", "--tlimit=%d" % int(timeout_s * 1000), path],
@@ -86,6 +86,9 @@ def discharge(pc, cond, timeout_ms, want_model=True, both=False, prefs=None):
     r = s.check()
     backend = "z3" if e is not None else "ground"
     if r == z3.unknown:
+        if os.environ.get("PYVC_DUMP_UNKNOWN"):
+            with open(os.path.join(os.environ["PYVC_DUMP_UNKNOWN"], "q%d.smt2" % (abs(hash(s.to_smt2())) % 100000)), "w") as fh:
+                fh.write(s.to_smt2())
         r2 = _cvc5(s.to_smt2(), timeout_ms / 1000.0)
         if r2 == "unsat":
             return dict(verdict="proved", backend="cvc5", model=None, time=time.time() - t0)
